@@ -61,7 +61,12 @@ def make_beads(rng, balanced, container='float', force_low_pile=False, force_low
             sizes = [n0] * K
     else:
         sizes = [int(rng.integers(200, 801)) for _ in range(K)]
-    if big:
+    if big == 'mid':
+        # a bead sample of 12 000 - 40 000 events, every subpopulation the same size (so that an interleaved, round-robin
+        # event order is exactly periodic: sub-sampled or strided shortcuts see some subpopulations only)
+        n0 = int(np.ceil(float(rng.choice([12000, 18000, 26000, 36000])) / K))
+        sizes = [n0] * K
+    elif big:
         f_ = max(16, int(np.ceil(150000.0 / sum(sizes))))
         sizes = [int(v) * f_ for v in sizes]          # a bead sample of 150 000 events or more
     truth = np.repeat(np.arange(K), sizes)
@@ -198,7 +203,7 @@ def run(ctx):
         if low_pile or low_thr:
             container = 'float'
         bd = make_beads(rng, cid[0] == 'bal', container, force_low_pile=low_pile, force_low_threshold=low_thr,
-                        big=(cid[0] == 'bal' and cid[1] % 22 == 9))
+                        big=(cid[0] == 'bal' and cid[1] % 22 == 9) or ('mid' if (cid[0] == 'bal' and cid[1] % 11 == 3) else False))
         K, C = bd['K'], bd['C']
         names = ['FL%d' % (c + 1) for c in range(C)]
         if container == 'float':
@@ -410,6 +415,13 @@ def run(ctx):
                 perm = np.argsort(truth, kind='stable')
                 if rng.random() < 0.5:
                     perm = perm[::-1]
+            if 10000 < len(truth) <= 100000:
+                # interleaved (round-robin) order: event i comes from subpopulation i mod K
+                rank_ = np.empty(len(truth), dtype=int)
+                for k_ in range(K):
+                    w_ = np.flatnonzero(truth == k_)
+                    rank_[w_] = np.arange(len(w_))
+                perm = np.lexsort((truth, rank_))
             sp = s[perm]
             with np.errstate(all='ignore'):
                 o3 = run_once(F, sp, bd, mv_arg, chans_arg, cl_ch, stat, seed)
